@@ -29,11 +29,22 @@ var ycbcrRatios = []image.YCbCrSubsampleRatio{
 var imgKinds = []string{"RGBA64", "NRGBA64", "RGBA", "NRGBA", "YCbCr444", "YCbCr422", "YCbCr420", "YCbCr440", "YCbCr411", "YCbCr410",
 	"Gray", "Gray16", "CMYK", "Paletted", "Alpha", "Alpha16", "NYCbCrA", "Opaque"}
 
+// testPalette: 32 entries of several colour types - non-premultiplied entries
+// with alpha 255, middling, 3, 2, 1 and 0 (with and without colour), and
+// premultiplied, 16-bit and grey entries - so that a conversion that handles
+// palette entries by type, or skips the premultiply/un-premultiply round trip
+// the standard library makes, differs somewhere.
 func testPalette() color.Palette {
 	var p color.Palette
 	for i := 0; i < 16; i++ {
 		p = append(p, color.NRGBA{R: uint8(i * 17), G: uint8(255 - i*13), B: uint8(i * 7 % 256), A: uint8(255 - (i%4)*60)})
 	}
+	p = append(p,
+		color.NRGBA{R: 255, G: 255, B: 255, A: 0}, color.NRGBA{R: 0, G: 0, B: 0, A: 0}, color.NRGBA{R: 201, G: 7, B: 99, A: 3}, color.NRGBA{R: 10, G: 200, B: 30, A: 1},
+		color.NRGBA{R: 77, G: 1, B: 254, A: 2}, color.NRGBA{R: 128, G: 128, B: 128, A: 254},
+		color.RGBA{R: 100, G: 50, B: 25, A: 100}, color.RGBA{R: 1, G: 0, B: 1, A: 1}, color.RGBA{R: 0, G: 0, B: 0, A: 0}, color.RGBA{R: 200, G: 180, B: 10, A: 255},
+		color.NRGBA64{R: 0x1234, G: 0xFEDC, B: 0x8000, A: 0x0101}, color.NRGBA64{R: 0xFFFF, G: 1, B: 0x7FFF, A: 0xFFFF},
+		color.RGBA64{R: 0x0100, G: 0x00FF, B: 0x0001, A: 0x0100}, color.Gray{Y: 77}, color.Gray16{Y: 0x1234}, color.Alpha{A: 9})
 	return p
 }
 
@@ -143,7 +154,7 @@ func newImage(kind string, r image.Rectangle, margin, seed int) (img image.Image
 		m := image.NewPaletted(pr, testPalette())
 		fillBytes(m.Pix, seed)
 		for i := range m.Pix {
-			m.Pix[i] %= 16
+			m.Pix[i] %= 32
 		}
 		parent, planes = m, func() [][]uint8 { return [][]uint8{m.Pix} }
 	case "NYCbCrA":
